@@ -39,7 +39,7 @@ def nti (bs : List Byte) : Option Nat :=
 
 def field (b : List Byte) (a z : Nat) : List Byte := (b.drop a).take (z - a)
 
-def realDec (b : List Byte) : Option Hd := do
+def realHdr (b : List Byte) : Option Hd := do
   let stored ← nti (field b 148 156)
   let sum := ((field b 0 148) ++ List.replicate 8 32 ++ (field b 156 512)).foldl (fun (a : Nat) (x : Byte) => a + x.toNat) 0
   if stored ≠ sum then none
@@ -54,7 +54,24 @@ def realDec (b : List Byte) : Option Hd := do
   let isReg := (ty == 48 || ty == 0 || ty == 55) && !isDir
   -- GNU long-name record (type `L`): the next `size` bytes are the name
   if ty == 76 then pure (.long size) else
+  -- pax extended header (type `x`): the next `size` bytes are records
+  if ty == 120 then pure (.pax size) else
   pure (.reg name (if isReg then size else 0))
+
+/-- the records of a pax extended header: `<len> <key>=<value>\n`, `len` counting the whole record (the parse loop of `_proc_pax`);
+    a `path` value loses its trailing slashes (`_apply_pax_info`) -/
+partial def realRecs (b : List Byte) : List Rec :=
+  let digits := b.takeWhile (fun x => 48 ≤ x && x ≤ 57)
+  if digits.isEmpty then [] else
+  let len := digits.foldl (fun (a : Nat) (x : Byte) => a * 10 + (x.toNat - 48)) 0
+  if len == 0 || len > b.length then [] else
+  let rec_ := (b.take len).drop (digits.length + 1)
+  let key := rec_.takeWhile (· != 61)
+  let val0 := (rec_.drop (key.length + 1)).dropLast
+  let val := if key == pathKey then (val0.reverse.dropWhile (· == 47)).reverse else val0
+  (key, val) :: realRecs (b.drop len)
+
+def realDec : Dec := { hdr := realHdr, recs := realRecs }
 
 def digest (d : List Byte) : Nat × Nat :=
   d.foldl (fun (ab : Nat × Nat) (x : Byte) => let a := (ab.1 + x.toNat) % 65521; (a, (ab.2 + a) % 65521)) (1, 0)
